@@ -93,13 +93,17 @@ Inductive scope := Scope {
   sc_kids : list scope;
   sc_leaves : list leaf }.
 
+(* the argument of an import / include statement with its optional revision-date *)
+Definition modref := (string * option string)%type.
+
 Record module := {
   m_name : string;
   m_sub : bool;                        (* Kind() == "submodule" *)
+  m_rev : string;                      (* Current(): the greatest revision statement, "" when there is none *)
   m_prefix : string;                   (* GetPrefix(): prefix, or belongs-to's prefix for a submodule *)
   m_belongs : string;                  (* BelongsTo.Name (submodules) *)
-  m_imports : list (string * string);  (* (Import.Prefix.Name, Import.Name) in source order *)
-  m_includes : list string;            (* Include.Name in source order *)
+  m_imports : list (string * modref);  (* (Import.Prefix.Name, (Import.Name, revision-date)) in source order *)
+  m_includes : list modref;            (* (Include.Name, revision-date) in source order *)
   m_top : scope }.
 
 Definition schema := list module.
@@ -258,14 +262,43 @@ Fixpoint find_up (top : scope) (rp : list nat) (name : string) : option (path * 
   | None => match rp with [] => None | _ :: r => find_up top r name end
   end.
 
-(* ms.Modules[name] / ms.SubModules[name] (revisions: C13) *)
-Fixpoint find_mod_from (S : schema) (i : nat) (sub : bool) (name : string) : option nat :=
+(* The maps ms.Modules / ms.SubModules after every text has been added (Modules.add): the key "name@rev" holds the
+   module of that name whose latest revision statement is rev, the bare key "name" the one with the greatest
+   FullName (= the greatest revision; a module without revision statement is the smallest).  Two loaded modules
+   never share a FullName (checkAdd rejects the second). *)
+Fixpoint find_rev_from (S : schema) (i : nat) (sub : bool) (name rev : string) : option nat :=
   match S with
   | [] => None
-  | M :: r => if Bool.eqb (m_sub M) sub && String.eqb (m_name M) name then Some i
-              else find_mod_from r (Datatypes.S i) sub name
+  | M :: r => if Bool.eqb (m_sub M) sub && String.eqb (m_name M) name && String.eqb (m_rev M) rev then Some i
+              else find_rev_from r (Datatypes.S i) sub name rev
   end.
-Definition find_mod (S : schema) (sub : bool) (name : string) : option nat := find_mod_from S 0 sub name.
+(* m[name + "@" + rev] *)
+Definition find_rev (S : schema) (sub : bool) (name rev : string) : option nat := find_rev_from S 0 sub name rev.
+
+Fixpoint find_mod_from (S : schema) (i : nat) (sub : bool) (name : string) (best : option (nat * string))
+  : option nat :=
+  match S with
+  | [] => match best with Some (j, _) => Some j | None => None end
+  | M :: r =>
+      if Bool.eqb (m_sub M) sub && String.eqb (m_name M) name then
+        match best with
+        | None => find_mod_from r (Datatypes.S i) sub name (Some (i, m_rev M))
+        | Some (j, rj) =>
+            if String.ltb rj (m_rev M) then find_mod_from r (Datatypes.S i) sub name (Some (i, m_rev M))
+            else find_mod_from r (Datatypes.S i) sub name best
+        end
+      else find_mod_from r (Datatypes.S i) sub name best
+  end.
+(* m[name]: the latest revision loaded *)
+Definition find_mod (S : schema) (sub : bool) (name : string) : option nat := find_mod_from S 0 sub name None.
+
+(* Modules.FindModule for an import (sub = false) or include (sub = true) statement: the pinned revision when it
+   is loaded, else the latest (everything is loaded up front, nothing is read from disk) *)
+Definition FindModule (S : schema) (sub : bool) (r : modref) : option nat :=
+  match snd r with
+  | Some rev => match find_rev S sub (fst r) rev with Some i => Some i | None => find_mod S sub (fst r) end
+  | None => find_mod S sub (fst r)
+  end.
 
 Fixpoint filter_some {A} (l : list (option A)) : list A :=
   match l with [] => [] | Some x :: r => x :: filter_some r | None :: r => filter_some r end.
@@ -273,7 +306,7 @@ Fixpoint filter_some {A} (l : list (option A)) : list A :=
 (* the resolved Include[i].Module pointers of module m *)
 Definition includes (S : schema) (m : nat) : list nat :=
   match nth_error S m with
-  | Some M => filter_some (map (find_mod S true) (m_includes M))
+  | Some M => filter_some (map (FindModule S true) (m_includes M))
   | None => []
   end.
 
@@ -339,7 +372,7 @@ Definition find_local (S : schema) (st : site) (name : string) : option (tdkey *
       end
   end.
 
-Fixpoint assoc_first (k : string) (l : list (string * string)) : option string :=
+Fixpoint assoc_first {A} (k : string) (l : list (string * A)) : option A :=
   match l with
   | [] => None
   | (k', v) :: r => if String.eqb k k' then Some v else assoc_first k r
@@ -355,7 +388,7 @@ Definition FindModuleByPrefix (S : schema) (m : nat) (prefix : string) : option 
   | Some M =>
       if String.eqb prefix "" || String.eqb prefix (m_prefix M) then Some m
       else match assoc_first prefix (m_imports M) with
-           | Some name => find_mod S false name
+           | Some imp => FindModule S false imp
            | None => None
            end
   end.
